@@ -415,6 +415,41 @@ def _run_cycles(ctx, threaded_modes=(True,), max_nodes=2):
     return results
 
 
+# words that CONTAIN the letters of a chain operator / a redirect-free lookalike but are ordinary
+# arguments: a string alias made of them is a plain word list (docs: a string alias is split like a
+# command line; only real `and` / `or` / `&&` / `||` / pipes / redirects / substitutions make it a
+# compound "exec" alias), so the user's arguments are appended and every word arrives unchanged
+WORDLIKE = ["w", "a-and-b", "x-or-y", "band", "orc", "and-b", "a-or", "rock.and.roll", "or=1", "--and", "AND", "a/and/b", "c,or,d", "and:", "or+"]
+
+
+def _run_wordlike(ctx):
+    from xonsh.aliases import Aliases, ExecAlias
+    from xonsh.built_ins import XSH
+
+    maxlen = 3 if ctx.thorough else 2
+    viols, n = [], 0
+    for k in range(1, maxlen + 1):
+        for seq in itertools.product(WORDLIKE, repeat=k):
+            for sep in (" ", "  ", "\t"):
+                if sep != " " and k == 1:
+                    continue
+                value = EXT + sep + sep.join(seq)
+                al = Aliases()
+                XSH.commands_cache.aliases = al
+                got = _observe(lambda: (al.__setitem__("wl", value), al.get(["wl", "u1", "k=~"], None, decorators=[]))[1])
+                n += 1
+                exp = [EXT, *seq, "u1", "k=~"]
+                obs = got[1] if got[0] == "ok" else got
+                if isinstance(obs, list) and obs and isinstance(obs[0], ExecAlias):
+                    obs = ["<ExecAlias %r>" % obs[0].src] + obs[1:]
+                if obs != exp:
+                    shape = "stored-as-exec-alias" if isinstance(obs, list) and obs and str(obs[0]).startswith("<ExecAlias") else "wrong-words"
+                    word = next((w for w in seq if w != "w"), "w")
+                    viols.append(common.Violation(key=f"wordlike:{shape}:{word}", clause="expansion", case={"alias_value": value, "line": ["wl", "u1", "k=~"], "seam": "Aliases.__setitem__ + Aliases.get"}, observed=repr(obs), expected=repr(exp)))
+    ctx.add_violations(viols)
+    return n
+
+
 def run(ctx):
     global _NAMES, _LINES, _ORDERS, _THOROUGH
     names = ("a", "b", "c")
@@ -436,8 +471,10 @@ def run(ctx):
         tb = dict(zip(names, t))
         ctx.sample({"table": {k: list(v) for k, v in tb.items()}, "line": list(_LINES[1]), "reference": repr(ref_expand(tb, _LINES[1]))})
     ctx.sample({"exec_alias_cycle": cyc[-1][0], "outcome": cyc[-1][1]})
+    n_wl = _run_wordlike(ctx)
     ctx.coverage.update(
-        evaluations=evals + len(cyc),
+        wordlike_alias_values=n_wl,
+        evaluations=evals + len(cyc) + n_wl,
         distinct_nontrivial=nontrivial,
         rule=f"all {len(tables)} assignments of {len(kinds)} alias kinds to names {names} (every graph shape incl. self-loops, 2/3-cycles, decorator prefixes, return_command links) x all {len(_ORDERS)} definition orders x {len(_LINES)} invoked lines through Aliases.get, plus SubprocSpec.build on first/last order; non-trivial = (table,line) pairs whose reference expansion is longer than the typed line; plus {len(cyc)} exec-alias cycle graphs executed for the run-time recursion clause",
         exhaustive=skipped == 0,
